@@ -27,6 +27,7 @@ def run(rep):
     rep.guard(v5, rep, dev)
     rep.guard(v6, rep, dev)
     rep.guard(v7, rep, dev)
+    rep.guard(v8, rep, worlds)
     import c09, c16
     rep.guard(c09.f4, rep, dev)     # an error raised after the raw active-fiber pointer was switched is reported on another fiber in builds that read the pointer
     rep.guard(c16.g2, rep, dev)     # the paced and the stress collector run at the same point of an allocation (before the new object is registered)
@@ -36,6 +37,8 @@ def run(rep):
     rep.guard(c04.b5, rep, dev)     # the stack bounds test exists only in checked builds: a capacity below frames x locals is a panic there and silent memory corruption in the optimised build
     rep.guard(c02.p11, rep, dev)    # ... the same for any other fixed-capacity Stack
     rep.guard(c01.r2, rep, dev)     # a handle kept outside the heap without a root: what it points to is gone after the next collection, which the stress build runs at every allocation
+    import c04_narrow
+    rep.guard(c04_narrow.b4n, rep, dev)   # a sub-word counter the compiler can overflow: the checked build panics in the compiler, the optimised build wraps and carries on with the wrapped count
 
 
 def features_of(snip):
@@ -173,7 +176,9 @@ def classify(w, f, bi, k, tab):
             if not impure_f and not has_pointer_store(f, only_false):
                 return 'check-only', 'checked arm only tests and panics; both arms agree whenever the tested condition is false'
     key = f.path
-    if key in tab:
+    # a listed function is excused for the site that was read and listed - arms that differ in what they *answer* (None / a clamped size) -
+    # not for whatever else is put under a cfg!() there later: an arm that writes memory is judged like any other site
+    if key in tab and not has_pointer_store(f, only_true) and not has_pointer_store(f, only_false):
         return 'listed', tab[key]['why']
     return 'unclassified', 'the guarded arms differ in more than a check, a trace or collection pacing (true-only calls %s, false-only calls %s)' % (
         [c for c in calls_true if c][:4], [c for c in calls_false if c][:4])
@@ -458,6 +463,26 @@ def v5(rep, w, rid='V5'):
     finally:
         cn.TYPE_RANGE.clear()
         cn.TYPE_RANGE.update(saved)
+
+
+def v8(rep, worlds):
+    """what the build script generates is part of the program: the Yarel source compiled at start-up (and every other text or number constant of
+    the crate, evaluated) has the same value in every configuration - a build script that writes something else for PROFILE=release (a
+    compacted core source: other line numbers in every trace through map / filter / collect) makes the two builds differ."""
+    r = rep.rule('V8', 'every evaluated constant of the crate (the embedded core source included) has the same value in every configuration', floor=10)
+    base_n, base = worlds[0]
+    ref = {k: (v.get('str'), v.get('v')) for k, v in base.yarel.consts.items()}
+    if not any(s_ is not None for (s_, _) in ref.values()):
+        raise Broken('C10', 'anchor', 'no text constant (the embedded core source) found in the %s world' % base_n)
+    for wn, w_ in worlds[1:]:
+        other = {k: (v.get('str'), v.get('v')) for k, v in w_.yarel.consts.items()}
+        for k in sorted(set(ref) | set(other)):
+            a, b = ref.get(k), other.get(k)
+            what = 'text' if (a and a[0] is not None) or (b and b[0] is not None) else 'value'
+            r.check(a == b, '%s has the same %s in %s and %s' % (k.replace('yarel::', ''), what, base_n, wn),
+                    'the constant %s differs between the %s and the %s configuration (%s): generated or evaluated differently per build, so the two builds run different programs'
+                    % (k, base_n, wn, 'missing in one' if a is None or b is None else ('texts of %d and %d characters' % (len(a[0] or ''), len(b[0] or '')) if what == 'text' else '%s vs %s' % (a[1], b[1]))),
+                    '')
 
 
 def short_n(v):
